@@ -66,6 +66,10 @@ def objdef_repr(d) -> str:
         return name + '(' + ', '.join(f'{k}={py_repr(v)}' for k, v in sorted(args.items())) + ')'
     if name == 'LabObjPlain':
         return f'LabObjPlain(x={py_repr(kw["x"])})'
+    if name == 'LabObjVar':
+        # `**options` is a constructor argument like any other: the mapping (in the order the options were written) is part of the text
+        opts = {k: x for k, x in kw.items() if k != 'a'}
+        return f'LabObjVar(a={py_repr(kw["a"])}, options={py_repr(opts)})'
     if name == 'LabObjDerived':
         return f'LabObjDerived(root={py_repr(kw["root"])})'      # the raw argument (kept in `_root`), never the derived public attribute
     if name == 'LabChainObj':
